@@ -273,6 +273,9 @@ class Check:
         for ename, sizes in spec["engines"]:
             n = sizes[self.tier]
             cap = spec.get("cap_s", {"quick": 75, "thorough": 840})[self.tier]
+            if self.tier == "thorough":
+                # one time budget per property, shared by its engines (a property with seven engines would otherwise run for an hour)
+                cap = min(cap, max(120, int(os.environ.get("VERIF_THOROUGH_BUDGET_S", "1200")) // len(spec["engines"])))
             done = 0
             step = 400 if self.tier == "quick" else 2000
             t_eng = time.time()
